@@ -399,6 +399,7 @@ func hsJudgeReplies(d *hsDraws, pub *rsa.PublicKey, r [][]byte) hsVerdict {
 	pqn := new(big.Int).SetBytes(pq)
 	if pqn.Cmp(big.NewInt(4)) < 0 || pqn.ProbablyPrime(20) {
 		v.Degenerate = "pq is not composite"
+		return bad("reply 1: pq is below 4 or prime, not a product of two primes")
 	}
 	// server_DH_params_ok
 	rd = &hsR{b: r[1]}
@@ -867,6 +868,7 @@ type hsRun struct {
 	RandUsed int
 	Overrun  int
 	FirstEnc string // "" not attempted; "readable:<body hex>" / why not
+	EncEarly int    // encrypted frames the server had seen when CreateConnection returned (or hung)
 	Addr     string
 }
 
@@ -875,6 +877,8 @@ func hsErrClass(err error) string {
 	t := err.Error()
 	has := func(s string) bool { return strings.Contains(t, s) }
 	switch {
+	case has("can't decode response"):
+		return "badResponse"
 	case has("got invalid response type"):
 		return "invalidType"
 	case has("Wrong new_nonce_hash1"):
@@ -999,6 +1003,9 @@ func hsExchange(d *hsDraws, pub *rsa.PublicKey, secrets *hsSecrets, replies [][]
 	run.RandUsed, run.Overrun = rdr.off, rdr.Overrun
 	rdr.mu.Unlock()
 
+	srv.mu.Lock()
+	run.EncEarly = len(run.Srv.Enc)
+	srv.mu.Unlock()
 	run.AuthKey = append([]byte{}, m.GetAuthKey()...)
 	run.Salt = m.GetServerSalt()
 	run.Enc = m.VerifEncrypted()
@@ -1083,7 +1090,7 @@ func hsResultLine(run *hsRun) string {
 		fr = append(fr, showBytes(f))
 	}
 	return fmt.Sprintf("res=%s frames=%s encframes=%d key=%s salt=%d enc=%v svc=%v stored=%s",
-		run.Outcome, showList(fr), len(run.Srv.Enc), showBytes(run.AuthKey), run.Salt, run.Enc, run.Svc,
+		run.Outcome, showList(fr), run.EncEarly, showBytes(run.AuthKey), run.Salt, run.Enc, run.Svc,
 		hsShowStores(run.Stores, run.Addr))
 }
 
